@@ -409,10 +409,35 @@ impl Node {
         }
 
         for ac in another_root_children {
-            self.append_child(ac)?
+            self.merge_child(ac, allow_override_handler)?
         }
 
         Ok(())
+    }
+
+    /// Merge `another`, a non-root node of the tree being merged, as a child
+    /// of `self`. When `self` already has a child for the same pattern
+    /// ( registered by `self`'s Ohkami, or by an Ohkami merged before ), the two
+    /// subtrees are united instead of living side by side: a second param child
+    /// would be unreachable — the search commits to the first one — and a second
+    /// static child is refused by `append_child`.
+    fn merge_child(&mut self, another: Node, allow_override_handler: bool) -> Result<(), String> {
+        let pattern = another.pattern.clone()
+            .expect("Invalid child node: Child node must have pattern");
+        match self.machable_child_mut(pattern) {
+            None => self.append_child(another),
+            Some(child) => {
+                let Node { pattern: _, fangses, handler, children } = another;
+                child.append_fangs(fangses);
+                if let Some(h) = handler {
+                    child.set_handler(h, allow_override_handler)?;
+                }
+                for ac in children {
+                    child.merge_child(ac, allow_override_handler)?
+                }
+                Ok(())
+            }
+        }
     }
 
     /// MUST be called after all handlers are registered
